@@ -114,7 +114,7 @@ type P4v2 struct {
 	ID    uint   `gorm:"primaryKey"`
 	Code  string `gorm:"size:16;unique"`
 	Qty   int64  `gorm:"check:qty_nonneg,qty >= 0"`
-	Memo  string `gorm:"not null;default:''"`
+	Memo  string `gorm:"not null;default:'';unique"`
 	Price int64  `gorm:"check:price_pos,price > -1;default:1"`
 	Extra string `gorm:"index:idx_p4_extra,unique"`
 }
@@ -125,15 +125,16 @@ func (P4v2) TableName() string { return "p4" }
 type P5 struct {
 	Code string `gorm:"primaryKey;size:20"`
 	Seq  int32  `gorm:"primaryKey;autoIncrement:false"`
-	A    string `gorm:"index:idx_p5_ab,priority:1"`
-	B    int64  `gorm:"index:idx_p5_ab,priority:2"`
+	A    string `gorm:"index:idx_p5_ab,priority:1,collate:NOCASE"`
+	B    int64  `gorm:"index:idx_p5_ab,priority:2,sort:desc"`
 }
 type P5v2 struct {
 	Code string `gorm:"primaryKey;size:20"`
 	Seq  int32  `gorm:"primaryKey;autoIncrement:false"`
-	A    string `gorm:"index:idx_p5_ab,priority:1"`
-	B    int64  `gorm:"index:idx_p5_ab,priority:2"`
-	C    string `gorm:"index:idx_p5_c"`
+	A    string `gorm:"index:idx_p5_ab,priority:1,collate:NOCASE"`
+	B    int64  `gorm:"index:idx_p5_ab,priority:2,sort:desc"`
+	C    string `gorm:"index:idx_p5_c,expression:lower(c)"`
+	D    int64  `gorm:"index:idx_p5_d,option:WHERE d > 0"`
 }
 
 func (P5v2) TableName() string { return "p5" }
@@ -219,6 +220,8 @@ type P9 struct {
 	Arch   int64
 	K1     int64 `gorm:"index:idx_p9_k,priority:2"`
 	K2     int64 `gorm:"index:idx_p9_k,priority:1,sort:desc"`
+	CA     int64 `gorm:"index:,composite:p9ab"`
+	CB     int64 `gorm:"index:,composite:p9ab"`
 }
 type P9v2 struct {
 	ID     uint   `gorm:"primaryKey"`
@@ -232,6 +235,8 @@ type P9v2 struct {
 	Arch   int64
 	K1     int64  `gorm:"index:idx_p9_k,priority:2"`
 	K2     int64  `gorm:"index:idx_p9_k,priority:1,sort:desc"`
+	CA     int64  `gorm:"index:,composite:p9ab"`
+	CB     int64  `gorm:"index:,composite:p9ab"`
 	Ghost  string `gorm:"-:migration"`
 	Extra  string `gorm:"type:varchar(16)"`
 }
@@ -262,7 +267,12 @@ type P10Dept struct {
 type P10Badge struct {
 	ID       uint `gorm:"primaryKey"`
 	P10EmpID uint
+	P10Emp   *P10Emp // back-reference of the has-one
 	No       string
+}
+type P10Lang struct {
+	ID   uint `gorm:"primaryKey"`
+	Name string
 }
 type P10Task struct {
 	ID       uint `gorm:"primaryKey"`
@@ -288,12 +298,14 @@ type P10Emp struct {
 	Manager   *P10Emp `gorm:"constraint:OnDelete:SET NULL"`
 	Badge     P10Badge
 	Tasks     []P10Task
-	Notes     []P10Note `gorm:"polymorphic:Owner"`
+	Notes     []P10Note `gorm:"polymorphic:Owner;polymorphicType:OwnerType;polymorphicId:OwnerID;polymorphicValue:emp"`
 	SkipID    uint
 	Skip      P10Dept  `gorm:"-:migration;foreignKey:SkipID"`
 	Audit     P10Audit `gorm:"embedded;embeddedPrefix:audit_"`
 	Money     P10Money
-	Qty       int64 `gorm:"check:qty >= 0"`
+	Qty       int64     `gorm:"check:qty >= 0"`
+	Langs     []P10Lang `gorm:"many2many:p10_emp_langs"`
+	Friends   []*P10Emp `gorm:"many2many:p10_friends"`
 }
 type P10Empv2 struct {
 	ID        uint   `gorm:"primaryKey"`
@@ -304,12 +316,14 @@ type P10Empv2 struct {
 	Manager   *P10Empv2 `gorm:"constraint:OnDelete:SET NULL"`
 	Badge     P10Badge  `gorm:"foreignKey:P10EmpID"`
 	Tasks     []P10Task `gorm:"foreignKey:P10EmpID"`
-	Notes     []P10Note `gorm:"polymorphic:Owner"`
+	Notes     []P10Note `gorm:"polymorphic:Owner;polymorphicType:OwnerType;polymorphicId:OwnerID;polymorphicValue:emp"`
 	SkipID    uint
 	Skip      P10Dept  `gorm:"-:migration;foreignKey:SkipID"`
 	Audit     P10Audit `gorm:"embedded;embeddedPrefix:audit_"`
 	Money     P10Money
-	Qty       int64 `gorm:"check:qty >= 0"`
+	Qty       int64       `gorm:"check:qty >= 0"`
+	Langs     []P10Lang   `gorm:"many2many:p10_emp_langs"`
+	Friends   []*P10Empv2 `gorm:"many2many:p10_friends"`
 	DeptID    uint
 	Dept      P10Dept
 	Level     int8 `gorm:"default:1"`
